@@ -594,7 +594,7 @@ func c18R4(p *core.Prog, r *core.Report) {
 		}
 	}
 	if n == 0 {
-		r.Note(rule, "cmd/regsync keeps no package-level map cache")
+		r.Note("%s: cmd/regsync keeps no package-level map cache", rule)
 		r.Held(rule, "cmd/regsync", "no process-wide cache", "", "nothing to key")
 	}
 }
